@@ -246,6 +246,9 @@ type Exec struct {
 	wgs            map[*Value]int64
 	onceDone       map[*Value]bool
 	sharedBuild    string
+	loopBudget     int
+	stepBudget     int64
+	stepBudgetStart int64
 	lastPanicWhere string
 	inInit         map[*ssa.Package]bool
 	clock          *Term
